@@ -38,6 +38,20 @@ def check(ctx, cfg):
     r6(ctx, cfg)
     r7(ctx, cfg)
     r8(ctx, cfg)
+    r_overlay(ctx, cfg)
+    r_bank(ctx, cfg)
+
+
+def r_bank(ctx, cfg):
+    """premise shared with C09 (the bank moves exactly what it is told to), under this property's id: a withdrawal mints the reward shown with a `BankSudo::Mint` to the withdraw address - and nothing else"""
+    from rules import C09
+    C09.ledger_premise(ctx, cfg, "C15.R10")
+
+
+def r_overlay(ctx, cfg):
+    """premise shared with C06 (the transaction overlay is faithful), under this property's id: accrued rewards are written and read back inside one transaction (update_rewards, then the withdrawal)"""
+    from rules import C06
+    C06.overlay_premise(ctx, cfg, "C15.R9")
 
 
 def r8(ctx, cfg):
